@@ -505,8 +505,16 @@ def o3b(prog: Program, chk: Check) -> None:
     """pre/post bookkeeping: which container a control goes to and comes from."""
     u = prog.unit("control:Control.add_single")
     vals = {}
+    # the container key: the local that subscripts the control containers
+    key_names = {x.slice.id for x in walk_local(u.node) if isinstance(x, ast.Subscript)
+                 and isinstance(x.slice, ast.Name)
+                 and dotted(x.value) in ("self._step_controls", "self._time_controls",
+                                         "self._control_times")}
+    if len(key_names) != 1:
+        raise AnalysisError("O3: Control.add_single no longer selects its containers by one key")
+    key_name = next(iter(key_names))
     for st in walk_local(u.node):
-        if isinstance(st, ast.Assign) and dotted(st.targets[0]) == "pre_post" \
+        if isinstance(st, ast.Assign) and dotted(st.targets[0]) == key_name \
                 and isinstance(st.value, ast.Constant):
             ctx = [br for (t, br) in branch_context(u.node, st) if dotted(t) == "post"]
             if len(ctx) == 1:
